@@ -3,6 +3,7 @@ package main
 import (
 	"context"
 	"fmt"
+	"os"
 	"sort"
 	"strings"
 	"time"
@@ -160,3 +161,5 @@ func withFlags(add, remove slog.Flags, f func()) {
 	defer slog.SetFlags(save)
 	f()
 }
+
+func osGetenv(k string) string { return os.Getenv(k) }
